@@ -280,6 +280,14 @@ func (c *etcExpCompiler) CompileTailExp(e ast.TailExpNode) {
 
 // compileExp compiles the given expression into a register and returns it.
 func (c *compiler) compileExp(e ast.ExpNode, dst ir.Register) ir.Register {
+	*c.expDepth++
+	defer func() { *c.expDepth-- }()
+	if *c.expDepth > maxExpDepth {
+		panic(Error{
+			Where:   e,
+			Message: "expression too complex (chain of more than 20000 operations)",
+		})
+	}
 	ec := expCompiler{
 		compiler: c,
 		dst:      dst,
